@@ -57,8 +57,8 @@ def coreClauses : Bool → Query → Bool
 
 def InCore (q : Query) : Bool := coreClauses false q
 
-/-- a core projection whose result is determined as a bag from a bag: no DISTINCT, SKIP, LIMIT -/
-def bagProj (p : Proj) : Bool := coreProj p && !p.distinct && p.skip.isNone && p.limit.isNone
+/-- a core projection whose result is determined as a bag from a bag: no SKIP, LIMIT (DISTINCT is fine) -/
+def bagProj (p : Proj) : Bool := coreProj p && p.skip.isNone && p.limit.isNone
 
 /-- core clauses with `bagProj` projections (what may follow the MATCH of an F1a query) -/
 def bagClauses : Bool → Query → Bool
